@@ -4893,7 +4893,12 @@ namespace awkward {
                              bool include_beginendlist) const {
     if (ndim() == 0) {
       T* array = reinterpret_cast<T*>(data());
-      builder.integer((int64_t)array[0]);
+      if (std::is_same<T, uint64_t>::value) {
+        builder.uinteger((uint64_t)array[0]);
+      }
+      else {
+        builder.integer((int64_t)array[0]);
+      }
     }
     else if (ndim() == 1) {
       T* array = reinterpret_cast<T*>(data());
@@ -4902,7 +4907,13 @@ namespace awkward {
         builder.beginlist();
       }
       for (int64_t i = 0;  i < length();  i++) {
-        builder.integer((int64_t)array[i*stride]);
+        if (std::is_same<T, uint64_t>::value) {
+          // values beyond the int64_t range would come out negative
+          builder.uinteger((uint64_t)array[i*stride]);
+        }
+        else {
+          builder.integer((int64_t)array[i*stride]);
+        }
       }
       if (include_beginendlist) {
         builder.endlist();
